@@ -253,6 +253,46 @@ func checkC07(c *h.Check) {
 			scalExtra = append(scalExtra, cs)
 		}
 	}
+	// Family E: a provider cycle inside a named set that no injector uses (exported or unexported variable): wire gen has
+	// nothing to say about it, wire check must report the cycle
+	for shape := 0; shape < 3; shape++ {
+		for _, setName := range []string{"Circle", "circle", "circleSet2"} {
+			b := ir.NewBuilder()
+			p := b.Root
+			a, bb, app := b.Leaf(p, "A"), b.Leaf(p, "B"), b.Leaf(p, "App")
+			var items []*ir.Item
+			extra := []*ir.Type{a, bb}
+			switch shape {
+			case 0:
+				items = []*ir.Item{ir.FuncItem(&ir.Func{Pkg: p, Name: "NewA", Params: []*ir.Type{bb}, Out: a}), ir.FuncItem(&ir.Func{Pkg: p, Name: "NewB", Params: []*ir.Type{a}, Out: bb})}
+			case 1:
+				items = []*ir.Item{ir.FuncItem(&ir.Func{Pkg: p, Name: "NewA", Params: []*ir.Type{a}, Out: a})}
+			case 2: // three providers in a ring, one of them with a second, satisfied argument
+				cc := b.Leaf(p, "C")
+				items = []*ir.Item{ir.FuncItem(&ir.Func{Pkg: p, Name: "NewC0", Out: cc}), ir.FuncItem(&ir.Func{Pkg: p, Name: "NewA", Params: []*ir.Type{cc, bb}, Out: a}), ir.FuncItem(&ir.Func{Pkg: p, Name: "NewB", Params: []*ir.Type{a}, Out: bb})}
+				extra = append(extra, cc)
+			}
+			inj := &ir.Injector{Name: "Init", Out: app, Items: []*ir.Item{ir.FuncItem(&ir.Func{Pkg: p, Name: "NewApp0", Out: app})}}
+			prog := &ir.Program{Root: p, Injectors: []*ir.Injector{inj}, ExtraSets: []*ir.Set{{Pkg: p, Name: setName, Items: items}}, ExtraTypes: extra}
+			cs := caseFromProgram(fmt.Sprintf("C07/unused-cyclic-set/shape=%d/name=%s", shape, setName), prog, false, nil)
+			cs.Judge = func(r *h.Result) []h.Violation {
+				vs := judgeVerdict(r, nil)
+				if r.CheckRan {
+					found := false
+					for _, d := range r.CheckDiags {
+						if strings.Contains(d, "cycle") {
+							found = true
+						}
+					}
+					if !found {
+						vs = append(vs, h.Violation{Symptom: "check-missed-cycle", Detail: "wire check does not report the cycle inside a provider set that no injector uses; its diagnostics:\n" + clip(strings.Join(r.CheckDiags, "\n"), 800)})
+					}
+				}
+				return vs
+			}
+			scalExtra = append(scalExtra, cs)
+		}
+	}
 	// Family C: deterministic scaling families, each alone under a time cap.
 	scal := append(scalingCases(thorough), scalExtra...)
 	rn := h.NewRunner(c.S)
@@ -303,7 +343,7 @@ func checkC07(c *h.Check) {
 	c.Coverage["traces_validated_against_impl"] = total
 	c.Coverage["evaluations"] = total
 	c.Coverage["distinct_nontrivial"] = c.DistinctPrograms()
-	c.Coverage["rule"] = "every labelled digraph (self-loops included) on <=3 nodes (thorough: 4) rendered as a Wire program; x placement (one named set / direct / one named set per node, so that a cycle exists only in the union / inline set) x one node re-typed as struct/field/binding edge; plus fan-lassos (chain of length 0..10 to a provider with 2-3 arguments, cycle through each argument position, closing at the fan node / chain start / chain middle); plus incomplete acyclic programs (every single item of every accepted base on 2-3 nodes left out: the planner must report and stop); plus deterministic deep/wide scaling graphs, each also run through wire check and wire show under the same caps. Distinct = distinct rendered source text. Non-trivial: all (each is a different graph)."
+	c.Coverage["rule"] = "every labelled digraph (self-loops included) on <=3 nodes (thorough: 4) rendered as a Wire program; x placement (one named set / direct / one named set per node, so that a cycle exists only in the union / inline set) x one node re-typed as struct/field/binding edge; plus fan-lassos (chain of length 0..10 to a provider with 2-3 arguments, cycle through each argument position, closing at the fan node / chain start / chain middle); plus incomplete acyclic programs (every single item of every accepted base on 2-3 nodes left out: the planner must report and stop); plus provider cycles inside named sets no injector uses (exported and unexported variables; wire check must report them); plus deterministic deep/wide scaling graphs, each also run through wire check and wire show under the same caps. Distinct = distinct rendered source text. Non-trivial: all (each is a different graph)."
 	c.Coverage["outcomes"] = outcomes.summary()
 	c.Coverage["scaling_cases"] = len(scal)
 	if len(cases) > 0 {
